@@ -10,14 +10,14 @@ Cases:
     ubp T h <host> p <port> pl <payload>                         buildUDPHeader, then parseUDPHeader
     conn|live <tail> cfg <mapping> <target> <secret> <hasTunnel> <tunnelOk> <hasRelay> <relayOk> <bindIP> <bindPort> T st <stream> ch <n> <size>*n
                                                                  Listener.handleConnection with creator doubles (live: via Manager + TCP)
-    relay <paced|burst|gated> T ds <n> <datagram>*n              real UDPRelay (readLoop + handlePacket goroutines) -> tunnel doubles
+    relay <paced|burst|gated> <dns 0|1> T ds <n> <datagram>*n    real UDPRelay (readLoop, handlePacket goroutines, receiveLoop, DNS handler) with doubles
 Observations (same for implementation and model):
     hs:  ok <cmd> <host> <port> w <written> left <n>   |  err <stage> w <written> left <n>
     ad:  ok <target> w <written> left <n>              |  err <stage> w <written> left <n>
     udp: err <stage>  |  ok <host> <port> <payload> rb <rebuilt> (ok <host> <port> <payload> | err <stage>)
     ubp: b <built> (ok <host> <port> <payload> | err <stage>)
     conn/live: ev <k> (tunnel <mapping> <target> <host> <port> <secret> <data> | relay <mapping> <target> <secret>)*k w <written> closed <0|1>
-    relay: fw <m> (<host> <port> <payload>)*m       every SendPacket (tunnel destination, bytes), sorted as text
+    relay: fw <m> (<host> <port> <payload>)*m dq <k> (<server> <query>)*k rx <j> <datagram>*j    each list sorted as text
 -/
 namespace Tunnox.Drv.C20
 open Tunnox.C20
@@ -278,6 +278,7 @@ def modelConn (cfg : ConnCfg) (c : StreamCase) : String :=
 
 structure RelayCase where
   mode : String
+  dns : Bool
   ip : IPText
   ds : List Bytes
 
@@ -290,14 +291,14 @@ def parseHexN : Nat → List String → Option (List Bytes)
   | _, _ => none
 
 def parseRelayCase : List String → Option RelayCase
-  | mode :: ts => do
+  | mode :: dns :: ts => do
     let (ip, ts) ← parseTables ts
     match ts with
     | "ds" :: n :: ts => do
       let n ← n.toNat?
       if ts.length != n then none else
       let ds ← parseHexN n ts
-      pure ⟨mode, ip, ds⟩
+      pure ⟨mode, dns == "1", ip, ds⟩
     | _ => none
   | _ => none
 
@@ -309,24 +310,50 @@ def relaySchedule (mode : String) (n : Nat) : List RStep :=
   else if mode == "burst" then List.replicate n RStep.read ++ (List.range n).reverse.map RStep.run
   else List.replicate n RStep.read ++ List.replicate n (RStep.run 0)
 
+/-- How the harness doubles answer: the tunnel `A5 ++ payload`, the DNS handler `D5 ++ query`. -/
+def harnessAnswer (isDns : Bool) (p : Bytes) : Bytes := (if isDns then 213 else 165) :: p
+
 def destStr (d : UDest) : String := s!"{hexOfBytes d.host} {d.port} {hexOfBytes d.payload}"
 
-def relayObsStr (sent : List UDest) : String :=
-  let xs := (sent.map destStr).mergeSort (fun a b => !decide (b < a))
-  xs.foldl (fun acc x => acc ++ " " ++ x) s!"fw {sent.length}"
+def sortedJoin (hdr : String) (xs : List String) : String :=
+  (xs.mergeSort (fun a b => !decide (b < a))).foldl (fun acc x => acc ++ " " ++ x) s!"{hdr} {xs.length}"
+
+def relayIOStr (o : RelayIO) : String :=
+  sortedJoin "fw" (o.fw.map destStr) ++ " " ++
+  sortedJoin "dq" (o.dq.map (fun q => s!"{hexOfBytes q.1} {hexOfBytes q.2}")) ++ " " ++
+  sortedJoin "rx" (o.rx.map hexOfBytes)
 
 def modelRelay (c : RelayCase) : String :=
-  relayObsStr ((Relay.init c.ds).exec c.ip .copyAtRead (relaySchedule c.mode c.ds.length)).sent
+  relayIOStr (relayIO c.ip c.dns harnessAnswer
+    ((Relay.init c.ds).exec c.ip .copyAtRead (relaySchedule c.mode c.ds.length)).sent)
 
-def parseDests : Nat → List String → Option (List UDest)
-  | 0, [] => some []
+def parseDests : Nat → List String → Option (List UDest × List String)
+  | 0, ts => some ([], ts)
   | n + 1, h :: p :: pl :: ts => do
-    let r ← parseDests n ts
-    pure (⟨← bytesOfHex h, ← p.toNat?, ← bytesOfHex pl⟩ :: r)
+    let (r, ts') ← parseDests n ts
+    pure (⟨← bytesOfHex h, ← p.toNat?, ← bytesOfHex pl⟩ :: r, ts')
   | _, _ => none
 
-def parseRelayObs : List String → Option (List UDest)
-  | "fw" :: m :: ts => do parseDests (← m.toNat?) ts
+def parseQueries : Nat → List String → Option (List (Text × Bytes) × List String)
+  | 0, ts => some ([], ts)
+  | n + 1, sv :: q :: ts => do
+    let (r, ts') ← parseQueries n ts
+    pure ((← bytesOfHex sv, ← bytesOfHex q) :: r, ts')
+  | _, _ => none
+
+def parseRelayObs : List String → Option RelayIO
+  | "fw" :: m :: ts => do
+    let (fw, ts) ← parseDests (← m.toNat?) ts
+    match ts with
+    | "dq" :: k :: ts => do
+      let (dq, ts) ← parseQueries (← k.toNat?) ts
+      match ts with
+      | "rx" :: j :: ts => do
+        let j ← j.toNat?
+        if ts.length != j then none else
+        pure ⟨fw, dq, ← parseHexN j ts⟩
+      | _ => none
+    | _ => none
   | _ => none
 
 /-! ### entry points -/
@@ -400,7 +427,7 @@ def runHolds (caseToks obsToks : List String) : String :=
     | none, _ => "bad-case"
   | "relay" :: rest =>
     match parseRelayCase rest, parseRelayObs obsToks with
-    | some c, some sent => boolStr (holdsRelay c.ip c.ds sent)
+    | some c, some o => boolStr (holdsRelayIO c.ip c.dns harnessAnswer c.ds o)
     | some _, none => "false"
     | none, _ => "bad-case"
   | _ => "bad-case"
